@@ -28,6 +28,7 @@ import Frp.Engines.Stack
 import Frp.Engines.E2e
 import Frp.Engines.Pool
 import Frp.Engines.HttpE2e
+import Frp.Engines.HttpGrp
 import Frp.Engines.Xtcp
 import Frp.Engines.Vmgr
 import Frp.Engines.Svc
@@ -70,6 +71,7 @@ def all : List (String × Engine) :=
   , ("e2e", e2e)
   , ("pool", pool)
   , ("httpe2e", httpe2e)
+  , ("httpgrp", httpgrp)
   , ("xtcp", xtcp)
   , ("vmgr", vmgr)
   , ("svc", svc)
